@@ -8,6 +8,7 @@ back the original char terms so that comparisons are z3 equalities decided under
 import re
 
 PUA0 = 0xE000
+PUA_CLASS = "[\ue000-\uf8ff]"   # regex class of the placeholder code points
 
 
 class Skel:
